@@ -226,6 +226,8 @@ Fixpoint generic_ahead (n : nat) (depth : Z) (ts : list token) {struct n} : bool
   end.
 
 
+Definition generic_args_ahead (ts : list token) : bool := generic_ahead 256 0 ts.
+
 (* ---------------------------------------------------------------- the parser *)
 Definition MAXD : nat := MAX_RECURSION_DEPTH.
 
@@ -284,7 +286,7 @@ Section Bodies.
     if has_lbrace && looks_like_struct && negb looks_like_code_block then Unsupported   (* struct literal *)
     else match curc ts1 with
          | P_DCOLON => Unsupported                            (* qualified name a::b *)
-         | P_LT => if is_upper (tv t) && generic_ahead 256 0 ts1 then Generic else Ok (Some (EVar (tv t))) ts1 err
+         | P_LT => if is_upper (tv t) && generic_args_ahead ts1 then Generic else Ok (Some (EVar (tv t))) ts1 err
          | _ => Ok (Some (EVar (tv t))) ts1 err
          end.
 
